@@ -88,11 +88,9 @@ var tvParams = []string{
 	"flatten_passes=1",
 	"flatten_passes=0",
 	"flatten_passes=2",
-	"flatten_passes=1 junk_jumps=2",
 	"flatten_passes=1 block_splits=2",
-	"flatten_passes=1 flatten_hardening=xor",
-	"flatten_passes=1 flatten_hardening=delegate_table",
-	"flatten_passes=1 junk_jumps=1 block_splits=1 flatten_hardening=xor,delegate_table",
+	"flatten_passes=1 junk_jumps=2",
+	"flatten_passes=0 block_splits=1 junk_jumps=1",
 }
 
 // tvPolicy keeps the draws that only permute labels (the block shuffle) and
@@ -127,7 +125,10 @@ func tvPolicy(free int, freePerm bool) func(string, int) int {
 func tvCheck(s tvSample, params string) {
 	nameCounter = 0
 	symx.Stub("mvdan.cc/garble/internal/ctrlflow.getRandomName", freshName)
-	symx.DrawPolicy(tvPolicy(tier(1, 2), true))
+	// Dispatcher keys stay symbolic, except under hardening: there the keys feed xor / table
+	// arithmetic whose all-keys queries the solvers do not finish (the key material itself is
+	// H_C11_xor_keys' and H_C11_delegate_keys' subject), so the identity permutation is used.
+	symx.DrawPolicy(tvPolicy(tier(1, 2), !strings.Contains(params, "hardening")))
 	file, fset := tvBuild("package p\n\n//garble:controlflow " + params + "\n" + s.Src + "\n")
 	symx.DrawPolicy(nil)
 	if file == nil {
@@ -212,7 +213,7 @@ func tvPick(str bool) tvSample {
 // H_C11_tv: every integer sample x directive parameter set.
 func H_C11_tv() {
 	s := tvPick(false)
-	params := tvParams[symx.Choose(tier(3, len(tvParams)))]
+	params := tvParams[symx.Choose(tier(4, len(tvParams)))]
 	tvCheck(s, params)
 }
 
@@ -230,7 +231,7 @@ func H_C11_tv_one() {
 
 // H_C11_tv_two: development aid (not registered): the samples with defer / closures.
 func H_C11_tv_two() {
-	names := []string{"safeDiv", "deferOrder", "counter"}
+	names := []string{"conv", "bits", "callDiv"}
 	want := names[symx.Choose(len(names))]
 	for _, s := range tvSamples {
 		if s.Name == want {
